@@ -41,6 +41,14 @@ class _Return(Exception):
         self.value = value
 
 
+class _Break(Exception):
+    pass
+
+
+class _Continue(Exception):
+    pass
+
+
 # ---------------------------------------------------------------------------------------- values
 class Fn:
     """Uninterpreted function symbol; applied element-wise to arrays of points."""
@@ -109,6 +117,13 @@ class Cls:
         if self.ctor is None:
             raise Undecided(f"constructor of {self.name}")
         return self.ctor(*args, **kw)
+
+
+class PyIter:
+    """A Python iterator over already evaluated values (iter(...), islice state)."""
+
+    def __init__(self, values):
+        self.it = iter(list(values))
 
 
 class Unknown:
@@ -319,12 +334,38 @@ class Interp:
             it = self.ev(s.iter, env)
             if isinstance(it, np.ndarray):
                 it = list(it)
+            if isinstance(it, PyIter):
+                it = list(it.it)
             if not isinstance(it, (list, tuple, range)):
                 raise Undecided(f"loop over `{norm(s.iter)[:50]}`")
             for x in it:
                 self.assign(s.target, x, env)
-                self.block(s.body, env)
+                try:
+                    self.block(s.body, env)
+                except _Break:
+                    break
+                except _Continue:
+                    continue
             return
+        if isinstance(s, ast.While):
+            if s.orelse:
+                raise Undecided("while/else")
+            turns = 0
+            while self.truth(self.ev(s.test, env)):
+                turns += 1
+                if turns > 10000:
+                    raise Undecided("a loop that does not terminate on the symbolic configuration")
+                try:
+                    self.block(s.body, env)
+                except _Break:
+                    break
+                except _Continue:
+                    continue
+            return
+        if isinstance(s, ast.Break):
+            raise _Break()
+        if isinstance(s, ast.Continue):
+            raise _Continue()
         if isinstance(s, ast.Return):
             raise _Return(self.ev(s.value, env) if s.value is not None else None)
         if isinstance(s, ast.FunctionDef):
@@ -476,8 +517,10 @@ class Interp:
                 v = self.ev(self.module_globals[e.id], {})
                 self._glob_cache[e.id] = v
                 return v
+            if e.id == "islice":
+                return ("itertools", "islice")
             if e.id in ("float", "int", "len", "range", "enumerate", "list", "tuple", "min", "max", "isinstance",
-                        "callable", "zip", "Number", "Real", "Integral", "bool", "abs", "reversed", "sum", "dict", "type", "slice", "sorted", "str"):
+                        "callable", "zip", "Number", "Real", "Integral", "bool", "abs", "reversed", "sum", "dict", "type", "slice", "sorted", "str", "iter", "all", "any"):
                 return ("builtin", e.id)
             raise Undecided(f"name `{e.id}`")
         if isinstance(e, ast.UnaryOp):
@@ -570,7 +613,8 @@ class Interp:
         if isinstance(e, ast.YieldFrom):
             if not self._yields:
                 raise Undecided("yield outside a generator")
-            self._yields[-1].extend(list(self.ev(e.value, env)))
+            src = self.ev(e.value, env)
+            self._yields[-1].extend(list(src.it) if isinstance(src, PyIter) else list(src))
             return None
         if isinstance(e, ast.Lambda):
             fd = ast.FunctionDef(name="<lambda>", args=e.args, body=[ast.Return(value=e.body)], decorator_list=[])
@@ -656,6 +700,8 @@ class Interp:
             it = self.ev(g.iter, env2)
             if isinstance(it, np.ndarray):
                 it = list(it)
+            if isinstance(it, PyIter):
+                it = list(it.it)
             if not isinstance(it, (list, tuple, range)):
                 raise Undecided(f"comprehension over `{norm(g.iter)[:40]}`")
             for x in it:
@@ -667,7 +713,11 @@ class Interp:
         return out
 
     def attribute(self, e, env):
+        if isinstance(e.value, ast.Name) and e.value.id == "itertools" and "itertools" not in env:
+            return ("itertools", e.attr)
         base = self.ev(e.value, env) if not (isinstance(e.value, ast.Name) and e.value.id in ("np", "numpy", "warnings")) else None
+        if isinstance(e.value, ast.Name) and e.value.id == "itertools" and "itertools" not in env:
+            return ("itertools", e.attr)
         if base is None and isinstance(e.value, ast.Name):
             if e.attr == "pi":
                 return sp.pi
@@ -775,6 +825,24 @@ class Interp:
             return self.builtin(f[1], args, kw)
         if isinstance(f, tuple) and f[0] == "np":
             return self.numpy(f[1], args, kw, e)
+        if isinstance(f, tuple) and f[0] == "itertools":
+            import itertools
+            def seqs_():
+                return [list(a.it) if isinstance(a, PyIter) else list(a) for a in args if not isinstance(a, (int, type(None)))]
+            if f[1] == "product":
+                seqs = seqs_()
+                rep_ = self._int(kw.get("repeat", 1))
+                return [tuple(t) for t in itertools.product(*seqs, repeat=rep_)]
+            if f[1] == "islice":
+                src = args[0]
+                if not isinstance(src, PyIter):
+                    src = PyIter(list(src))
+                return list(itertools.islice(src.it, *[None if a is None else self._int(a) for a in args[1:]]))
+            if f[1] == "chain":
+                return [x for q in seqs_() for x in q]
+            if f[1] == "pairwise":
+                return list(itertools.pairwise(seqs_()[0]))
+            raise Undecided(f"itertools.{f[1]}")
         raise Undecided(f"call `{norm(e)[:60]}`")
 
     def builtin(self, name, args, kw):
@@ -796,9 +864,9 @@ class Interp:
                 raise Undecided("sorted of symbolic data / with a key")
             return sorted(vals)
         if name == "zip":
-            return list(zip(*[list(a) for a in args]))
+            return list(zip(*[list(a.it) if isinstance(a, PyIter) else list(a) for a in args]))
         if name in ("list", "tuple"):
-            v = list(args[0]) if args else []
+            v = (list(args[0].it) if isinstance(args[0], PyIter) else list(args[0])) if args else []
             return v if name == "list" else tuple(v)
         if name == "sum":
             tot = args[1] if len(args) > 1 else sp.Integer(0)
@@ -809,6 +877,24 @@ class Interp:
             return isinstance(args[0], (Fn, Closure))
         if name == "dict":
             return dict(args[0]) if args else dict(kw)
+        if name in ("all", "any"):
+            vals = [self.truth(x) for x in (list(args[0].it) if isinstance(args[0], PyIter) else list(args[0]))]
+            return all(vals) if name == "all" else any(vals)
+        if name == "iter" and len(args) == 2:
+            fn, sentinel = args
+            out = []
+            for _ in range(100000):
+                v = fn()
+                if isinstance(v, (list, tuple)) and isinstance(sentinel, (list, tuple)) and list(v) == list(sentinel) or \
+                        (not isinstance(v, (list, tuple, np.ndarray, sp.Basic)) and v == sentinel):
+                    return PyIter(out)
+                out.append(v)
+            raise Undecided("iter(callable, sentinel) does not terminate on the symbolic configuration")
+        if name == "iter":
+            v = args[0]
+            if isinstance(v, PyIter):
+                return v
+            return PyIter(list(v))
         if name == "str":
             if isinstance(args[0], (int, str)) and not isinstance(args[0], bool):
                 return str(args[0])
